@@ -45,9 +45,11 @@ func init() {
 		Patterns: []string{"./memory"},
 		Explanation: "Every write of the in-memory AUTO_INCREMENT counter (TableData.autoIncVal) is classified by the SSA shape of the stored value and of its control dependence, wherever the write is located: (W) monotone — the value is the Uint64 conversion of x and the store is control-dependent on `Compare(x, current counter) > 0`; increment — the address of the counter is passed to a helper; reset — the constants 0/1 into a freshly allocated TableData, or into an existing one under a branch on Column.AutoIncrement (the auto column is being added or removed), or unconditionally inside an unexported helper (whose callers rule R checks); copy — the value is loaded from another counter; explicit — the value is the parameter of SetAutoIncrementValue. Any other store is a violation. " +
 			"(H) every helper that receives the counter's address stores only `current + 1`, guarded against math.MaxUint64 and by an in-range conversion of the new value for the column type. " +
-			"(R) an unconditional resetting helper (TableData.truncate) may be called only from the TRUNCATE entry point (the method implementing sql.TruncateableTable) or by a function that afterwards restores the counter with a copy-shaped store: a table rewrite is not a TRUNCATE.",
-		NotCovered: "LAST_INSERT_ID() / OkResult.InsertID reporting, the expression-level AutoIncrement node, ALTER semantics beyond carrying the counter over, concurrency of the counter",
-		Technique:  "who-may-write over go/ssa (all stores and address escapes of one struct field) + dominance-based control dependence + static call graph",
+			"(R) an unconditional resetting helper (TableData.truncate) may be called only from the TRUNCATE entry point (the method implementing sql.TruncateableTable) or by a function that afterwards restores the counter with a copy-shaped store: a table rewrite is not a TRUNCATE. " +
+			"(N) the counter means `next value to hand out`: whenever a function learns a row cell (an element of a sql.Row value, or a parameter an in-package caller binds to one) — it compares the cell with the counter or stores its conversion into the counter — the counter is strictly greater than that cell at every return that may be a success. Decided by abstract interpretation of sign(cell − counter) along every SSA path: Compare gives {<,=,>} refined by the branches on its result while the counter is unwritten, `counter = cell` gives {=}, `counter = cell + k` gives {<}, the increment helper maps = to <, and only {<} may reach a normal return; interprocedural over static in-package calls (callee effect per abstract input, the compare result may be returned to the caller), with earlier cells of a loop folded into a pending flag. " +
+			"(U) every function that hands a row to the edit accumulator (tableEditAccumulator.Insert: the row will be stored) compares that row's cell with the counter, itself or in a callee receiving the row.",
+		NotCovered: "LAST_INSERT_ID() / OkResult.InsertID reporting, the expression-level AutoIncrement node (GetNextAutoIncrementValue reserves a proposed value, not a stored cell: it is outside N), ALTER semantics beyond carrying the counter over, concurrency of the counter, that two counter addresses in one function denote the same TableData (N identifies the counter by field, as W does), that the compared cell is the AUTO_INCREMENT column's cell (index not checked), rows written to partitions without going through the accumulator",
+		Technique:  "who-may-write over go/ssa (all stores and address escapes of one struct field) + dominance-based control dependence + static call graph; N: path-sensitive abstract interpretation (sign of cell − counter) over the SSA CFG with interprocedural summaries",
 		Run:        func(c *Ctx) { runC20(c, c20Repo) },
 		Fixture: func(c *Ctx, fx *Prog) {
 			p := c20Params{rel: "testdata/c20/mem", structName: "TableData", field: "autoIncVal", sqlRel: "testdata/c20/sql", colType: "Column", colField: "AutoIncrement",
